@@ -11,6 +11,8 @@ Clause(e) ==
   IF e.imp # "ok" THEN "generated_package_does_not_import"
   ELSE IF r.res = "no_such_route" THEN "no_handler_registered_for_route"
   ELSE IF r.res = "hang" THEN "call_does_not_terminate"
+  \* a call made with timeout=0 may fail as it likes (deadline exceeded), but if its handler ran, the handler saw no stub-level allowance
+  ELSE IF c.kw.tzero THEN (IF r.ran # <<>> /\ r.deadline # 0 THEN "timeout_deadline_precedence" ELSE "ok")
   ELSE IF r.res = "exception" THEN "call_raises_" \o r.exc
   ELSE IF r.hit # <<c.route>> THEN "request_reached_another_route"
   ELSE IF \E j \in 1..Len(r.ran) : r.ran[j] # c.pyname THEN "another_handler_ran"
